@@ -45,7 +45,7 @@ EvRun ==
                                 IF ref[e.key][1] # e.status THEN "cached-status-differs" ELSE "cached-output-differs",
                                 Culprit(e)>>}
                         ELSE {})
-             /\ dir' = IF hit THEN (IF e.sink = "file" THEN dir \ {e.key} ELSE dir)
+             /\ dir' = IF hit THEN (IF e.sink # "stdout" THEN dir \ {e.key} ELSE dir)
                        ELSE IF succeeds THEN dir \cup {e.key} ELSE dir
              /\ ndrift' = ndrift + (IF Cardinality(dir') # e.nentries THEN 1 ELSE 0)
              /\ UNCHANGED ref
